@@ -173,8 +173,13 @@ def main(pid, tier, seed, replay=None):
                 run.paths = build.ensure(release=True, log=run.log)
             except build.BuildError as e:
                 raise Inconclusive('release build for replay failed: ' + str(e))
+        unconfirmable = []
         for v in violations:
             ok, detail = mod.confirm(run, v)
+            if ok is None:
+                # counterexample of an over-approximating model for which no concrete instance was found
+                unconfirmable.append((v, detail))
+                continue
             if not ok:
                 run.log('[replay] counterexample did NOT reproduce on the real build:', json.dumps(v, default=str)[:600])
                 run.log('         native:', json.dumps(detail, default=str)[:600])
@@ -189,6 +194,13 @@ def main(pid, tier, seed, replay=None):
                     known_hits.append(hit)
             else:
                 confirmed.append(v)
+        if unconfirmable and not confirmed and not known_hits:
+            for v, d in unconfirmable[:3]:
+                run.log('[replay] no concrete instance found for:', str(v.get('what'))[:400], json.dumps(d, default=str)[:300])
+            raise Inconclusive('counterexample(s) of the uninterpreted-run model could not be turned into a concrete stream on the generated devices; '
+                               'neither a pass nor a confirmed violation')
+        for v, d in unconfirmable:
+            run.log('[replay] (not reported: no concrete instance found) ' + str(v.get('what'))[:200])
         for k in known_hits:
             print(f"KNOWN-FINDING: property={pid} {k['key']}: {k.get('what', '')}", flush=True)
         seen_roles = set()
